@@ -156,9 +156,32 @@ def snapshot_globals():
     return len(snap)
 
 
+def _clear_caches():
+    """functools caches inside basictdf hold state across runs: one run = one fresh process."""
+    import inspect
+    import sys
+    for name, mod in sorted(sys.modules.items()):
+        if not (name == "basictdf" or name.startswith("basictdf.")) or mod is None:
+            continue
+        holders = [mod] + [o for _n, o in sorted(vars(mod).items())
+                           if inspect.isclass(o) and getattr(o, "__module__", "").startswith("basictdf")]
+        for h in holders:
+            for _an, av in sorted(vars(h).items(), key=lambda kv: kv[0]):
+                fn = av.__func__ if isinstance(av, (staticmethod, classmethod)) else av
+                if isinstance(fn, property):
+                    cands = [fn.fget, fn.fset]
+                else:
+                    cands = [fn]
+                for f in cands:
+                    cc = getattr(f, "cache_clear", None)
+                    if callable(cc):
+                        cc()
+
+
 def reset_globals():
     if _GLOBALS is None:
         snapshot_globals()
+    _clear_caches()
     for live, saved in _GLOBALS:
         if isinstance(live, list):
             live[:] = saved
@@ -167,3 +190,46 @@ def reset_globals():
             live.update(saved)
         elif isinstance(live, bytearray):
             live[:] = saved
+
+
+# ---------------------------------------------------------------------------
+# adversarial dates: the repeated hour at the end of daylight saving time
+
+_FOLDS = {}
+
+
+def fold_instants(tzname):
+    """POSIX timestamps t at which the zone's UTC offset drops by d seconds: local times in
+    [t - d, t) occur a second time in [t, t + d).  Returns [(t, d), ...] for 1971..2037."""
+    if tzname in _FOLDS:
+        return _FOLDS[tzname]
+    out = []
+    try:
+        import zoneinfo
+        from datetime import datetime, timezone
+        z = zoneinfo.ZoneInfo(tzname)
+
+        def off(ts):
+            return int(datetime.fromtimestamp(ts, timezone.utc).astimezone(z).utcoffset().total_seconds())
+        day = 86400
+        ts = 86400 * 366
+        prev = off(ts)
+        end = 2**31 - 86400 * 366
+        while ts < end:
+            nxt = ts + day
+            cur = off(nxt)
+            if cur < prev:
+                lo, hi = ts, nxt
+                while hi - lo > 1:
+                    mid = (lo + hi) // 2
+                    if off(mid) == prev:
+                        lo = mid
+                    else:
+                        hi = mid
+                out.append((hi, prev - cur))
+            prev = cur
+            ts = nxt
+    except Exception:
+        out = []
+    _FOLDS[tzname] = out
+    return out
